@@ -10,6 +10,8 @@ from .astutil import slopes, aff_vars, space_vars, free_vars
 F = 256
 ROT = {"r0": (1, 0, 1), "r90": (0, 1, 1), "r180": (-1, 0, 1), "r270": (0, -1, 1),
        "p345": (4, 3, 5), "m345": (4, -3, 5), "p51213": (12, 5, 13)}
+ROT3 = {"z345": ([[4, -3, 0], [3, 4, 0], [0, 0, 5]], 5), "x345": ([[5, 0, 0], [0, 4, -3], [0, 3, 4]], 5),
+        "y90": ([[0, 0, 1], [0, 1, 0], [-1, 0, 0]], 1), "zx": ([[20, -12, 9], [15, 16, -12], [0, 15, 20]], 25)}
 SPACES = {"x": 2, "u": 1, "y": 3, "z": 1, "t": 1, "k": 1}
 
 
@@ -92,6 +94,19 @@ def build(e):
         return D.Circle(space_of(e["v"]), mk_fun(e["c"]), mk_fun(e["r"]))
     if k == "sphere":
         return D.Sphere(space_of(e["v"]), mk_fun(e["c"]), mk_fun(e["r"]))
+    if k == "poly":         # constant rings of quarter-unit vertices: ring 1 exterior, the others holes
+        from torchphysics.problem.domains.domain2D.shapely_polygon import ShapelyPolygon      # not re-exported (optional dependency)
+        K = SCALE[0]
+        rings = [[(x / 4.0 * K, y / 4.0 * K) for x, y in r] for r in e["rings"]]
+        if len(rings) == 1:
+            return ShapelyPolygon(space_of(e["v"]), vertices=[list(p) for p in rings[0]])
+        import shapely.geometry as s_geo
+        return ShapelyPolygon(space_of(e["v"]), shapely_polygon=s_geo.Polygon(rings[0], rings[1:]))
+    if k == "mesh":         # constant vertices (quarter units) and surface triangles (1-based indices) as the term gives them
+        K = SCALE[0]
+        from torchphysics.problem.domains.domain3D.trimesh_polyhedron import TrimeshPolyhedron
+        return TrimeshPolyhedron(space_of(e["v"]), vertices=[[c / 4.0 * K for c in v] for v in e["vs"]],
+                                   faces=[[i - 1 for i in f] for f in e["fs"]])
     if k == "union":
         if e.get("disjoint"):
             from torchphysics.problem.domains.domainoperations.union import UnionDomain
@@ -108,6 +123,14 @@ def build(e):
         return build(e["l"]) * build(e["r"])
     if k == "trans":
         return D.Translate(build(e["d"]), mk_fun(e["t"]))
+    if k == "rot" and e["m"] == "quarter":        # rotation by (pi/2) * parameter: Rotate.from_angles with an angle function
+        import math
+        ns = {}
+        exec("def ang(%s):\n    return %r * %s\n" % (e["an"], math.pi / 2 / SCALE[0], e["an"]), ns)
+        return D.Rotate.from_angles(build(e["d"]), ns["ang"], rotate_around=mk_fun(e["p"]))
+    if k == "rot" and e["m"] in ROT3:
+        M, h = ROT3[e["m"]]
+        return D.Rotate(build(e["d"]), torch.tensor([[[x / h for x in row] for row in M]]), mk_fun(e["p"]))
     if k == "rot":
         c, s, h = ROT[e["m"]]
         m = torch.tensor([[[c / h, -s / h], [s / h, c / h]]])
